@@ -11,7 +11,6 @@ copy'.  LayoutManager.transpose is represented by its contract (C01/C03).
 from __future__ import annotations
 
 import ast
-import itertools
 
 from ..core import src, AnalysisError, parent
 from .. import units as U
@@ -251,6 +250,18 @@ class Exec:
                 b.update(kw)
                 self.transpose(g, b, st)
                 return
+            if src(f) in ("np.copyto", "numpy.copyto") and len(c.args) == 2 and not c.keywords:
+                # np.copyto(dst, src) is the store dst[...] = src
+                tgt = self.ev(c.args[0], g, loc)
+                if isinstance(tgt, tuple) and tgt and tgt[0] in ("prefix", "buf", "view"):
+                    self.store(g, tgt, self.ev(c.args[1], g, loc), st)
+                    return
+                raise ModelError(f"store target not modelled: `{src(c.args[0])[:60]}`")
+            # any other call that is handed a buffer of the grid (or the view) may write it: not modelled
+            touched = [x for x in list(c.args) + [k.value for k in c.keywords] + ([f.value] if isinstance(f, ast.Attribute) else [])
+                       if any(isinstance(n, ast.Attribute) and src(n) in ("self._my_data", "self._f") for n in ast.walk(x))]
+            if touched:
+                raise ModelError(f"call `{src(st)[:70]}` receives a buffer of the grid: its effect on the buffer is not modelled")
             return
         if isinstance(st, (ast.Pass, ast.Return)):
             return
@@ -509,9 +520,11 @@ def run_init(ex: Exec, init, g, args):
 
 
 def alloc_agreement(chk, mod):
-    """all buffers of one grid have the same size and dtype (sibling agreement)"""
+    """all buffers of one grid have the same size and dtype (sibling agreement) and the size the layout manager advertises"""
+    import re
     init = mod.func("Grid.__init__")
     env = inline_locals(init)
+    rule = "T8-buffer-allocation-agreement"
     # names under which the constructor knows the layout manager
     mgr = {"self._layout_manager"}
     for a in ast.walk(init):
@@ -521,34 +534,49 @@ def alloc_agreement(chk, mod):
     for a in ast.walk(init):
         if not (isinstance(a, ast.Assign) and src(a.targets[0]) == "self._my_data"):
             continue
+        n += 1
+        v = expand(a.value, env) if isinstance(a.value, ast.Name) else a.value
         elts = None
-        if isinstance(a.value, ast.List):
-            elts = a.value.elts
-        elif isinstance(a.value, ast.ListComp) and len(a.value.generators) == 1:
-            elts = [a.value.elt]            # every buffer is the same expression by construction
-        if elts is None:
-            chk.ob("T8-buffer-allocation-agreement", a, "self._my_data = ...", None, f"allocation `{src(a.value)[:60]}` not recognised",
-                   file=U.GRID, func="Grid.__init__")
-            n += 1
+        if isinstance(v, (ast.List, ast.Tuple)):
+            elts = v.elts
+        elif isinstance(v, ast.ListComp) and len(v.generators) == 1 and not v.generators[0].ifs:
+            elts = [v.elt]            # every buffer is the same expression by construction
+        elif isinstance(v, ast.BinOp) and isinstance(v.op, ast.Mult) and any(isinstance(x, ast.List) for x in (v.left, v.right)):
+            chk.ob(rule, a, "self._my_data = [...] * n", False,
+                   f"`{src(a.value)[:70]}` repeats ONE array object: the rotating buffers alias each other, a layout change or a save overwrites "
+                   "the data it reads", file=U.GRID, func="Grid.__init__")
             continue
-        sigs = []
+        if elts is None:
+            chk.ob(rule, a, "self._my_data = ...", None, f"allocation `{src(a.value)[:60]}` not recognised", file=U.GRID, func="Grid.__init__")
+            continue
+        sigs, unknown = [], False
         for el in elts:
             e = expand(el, env)
-            if isinstance(e, ast.Call) and src(e.func) in ("np.empty", "np.zeros", "numpy.empty"):
-                size = src(e.args[0]) if e.args else "?"
+            if isinstance(e, ast.Call) and src(e.func) in ("np.empty", "np.zeros", "numpy.empty", "numpy.zeros", "np.ones") and e.args:
+                size = src(e.args[0])
                 dt = [src(k.value) for k in e.keywords if k.arg == "dtype"]
                 dt = dt[0] if dt else (src(e.args[1]) if len(e.args) > 1 else "<default float>")
-                sigs.append((src(e.func), size, dt))
+                sigs.append((size, dt))
             else:
-                sigs.append(("?", src(e), "?"))
-        n += 1
-        ok = len(set(sigs)) == 1 and sigs[0][1] in {m + ".bufferSize" for m in mgr} and sigs[0][2] not in ("<default float>", "?")
-        chk.ob("T8-buffer-allocation-agreement", a, f"self._my_data = [...{len(sigs)} buffer expression(s)]", ok,
-               "all rotating buffers are allocated with the manager's bufferSize and the grid's dtype" if ok else
-               f"buffers differ in size or dtype: {sigs} - after an index rotation the field would live in an array "
-               "of another type/size", file=U.GRID, func="Grid.__init__")
+                sigs.append(("?", src(e)))
+                unknown = True
+        what = f"self._my_data = [...{len(sigs)} buffer expression(s)]"
+        ok, bad = None, None
+        if not unknown:
+            if len(set(sigs)) != 1:
+                bad = (f"buffers differ in size or dtype: {sigs} - after an index rotation the field would live in an array of another type/size "
+                       "(a float buffer drops the imaginary part of a complex field)")
+            elif sigs[0][1] == "<default float>":
+                bad = "the buffers are allocated without the grid's dtype: a complex grid is stored in float64 arrays"
+            elif sigs[0][0] in {m + ".bufferSize" for m in mgr}:
+                ok = True
+            elif re.search(r"\.size$|max_block_size$|np\.prod\(.*shape\)$", sigs[0][0]):
+                bad = (f"the buffers hold `{sigs[0][0]}` elements: the transposes need arrays of the manager's bufferSize (padded exchange blocks x "
+                       "communicator size), which is larger than a local block for uneven distributions")
+        chk.pat(rule, a, what, ok, "all rotating buffers are allocated with the manager's bufferSize and the grid's dtype", bad,
+                file=U.GRID, func="Grid.__init__")
     if n < 1:
-        raise AnalysisError("C04: no `_my_data` allocation site found in Grid.__init__")
+        chk.ob(rule, init, "self._my_data = ...", None, "no `_my_data` allocation site found in Grid.__init__", file=U.GRID, func="Grid.__init__")
 
 
 # --------------------------------------------------------------------------
@@ -604,19 +632,7 @@ def driver_protocol(chk):
                func="main", nontrivial=False)
 
 
-def run(chk):
-    chk.explanation = (
-        "Typestate enumeration: the Grid methods' bodies are interpreted from the AST as guarded transformers over "
-        "(buffer index permutation, notSaved/hasSaveMemory, layout names, the buffer+layout `_f` views, per-buffer "
-        "content tags current/saved/garbage); LayoutManager.transpose is its contract. All states reachable under all "
-        "sequences of setLayout(3 names)/overwrite/save/free/restore from both constructors (with/without save memory) "
-        "are enumerated exhaustively and compared with the single-array specification; plus buffer allocation "
-        "agreement and the driver's save/restore protocol. No data values are modelled (that is C01/C03's declined part).")
-    chk.assumptions += ["LayoutManager.transpose satisfies its contract: field source->dest, source kept iff buf given, buf clobbered (C01/C03)",
-                        "asserts are enabled"]
-    mod = chk.mod(U.GRID)
-    chk.in_file(U.GRID)
-    cls = mod.cls("Grid")
+def typestate(chk, mod, cls):
     for m in ("__init__", "setLayout", "saveGridValues", "freeGridSave", "restoreGridValues", "getAllData"):
         chk.func(U.GRID, f"Grid.{m}")
     ex = Exec(cls, chk, U.GRID)
@@ -640,6 +656,27 @@ def run(chk):
     chk.extra["states"] = tot_states
     chk.extra["transitions"] = tot_trans
     chk.extra["exhaustive"] = True
+
+
+def run(chk):
+    chk.explanation = (
+        "Typestate enumeration: the Grid methods' bodies are interpreted from the AST as guarded transformers over "
+        "(buffer index permutation, notSaved/hasSaveMemory, layout names, the buffer+layout `_f` views, per-buffer "
+        "content tags current/saved/garbage); LayoutManager.transpose is its contract. All states reachable under all "
+        "sequences of setLayout(3 names)/overwrite/save/free/restore from both constructors (with/without save memory) "
+        "are enumerated exhaustively and compared with the single-array specification; plus buffer allocation "
+        "agreement and the driver's save/restore protocol. No data values are modelled (that is C01/C03's declined part).")
+    chk.assumptions += ["LayoutManager.transpose satisfies its contract: field source->dest, source kept iff buf given, buf clobbered (C01/C03)",
+                        "asserts are enabled"]
+    mod = chk.mod(U.GRID)
+    chk.in_file(U.GRID)
+    cls = mod.cls("Grid")
+    try:
+        typestate(chk, mod, cls)
+    except AnalysisError as e:
+        # the model cannot read a method: the typestate rules are undecided, the remaining rules still run
+        chk.ob("T0-typestate-model", cls, "Grid.__init__/setLayout/saveGridValues/freeGridSave/restoreGridValues", None,
+               f"cannot decide: {e}", file=U.GRID, func="Grid")
     alloc_agreement(chk, mod)
     driver_protocol(chk)
     # the contract of LayoutManager.transpose that the model relies on is discharged here as well
